@@ -315,6 +315,7 @@ class Slice:
                 else:
                     out.append(("other", s))
         self.last_through = through
+        self.last_seen = seen
         return out
 
 
@@ -455,10 +456,15 @@ def const_strings(body, sl, op):
 def question_mark_edges(body, du, call):
     """(Continue edge, Break edge) of the `?` applied to the result of `call` itself (directly or after map_err/map): the
     Try::branch whose operand is that result and nothing else. Returns (None, None) when there is none."""
+    def is_err_def(k, d):
+        if k == "call": return (not d.callee.indirect) and d.callee.name == "from_residual"
+        return k == "stmt" and d.kind == "assign" and d.rv == "agg" and isinstance(d.agg, dict) and d.agg.get("variant") in ("Err", "None")
     def comes_from(local):
         l = local
         for _ in range(12):
             ds = du.value_defs(l)
+            # a helper's return slot has one definition per exit: those that can only be Err/None do not matter for the Ok edge
+            if len(ds) > 1: ds = [x for x in ds if not is_err_def(*x)]
             if len(ds) != 1: return False
             k, d = ds[0]
             if k == "call":
